@@ -25,7 +25,15 @@ func runC17(g Glue, j *Job, res *JobResult) {
 		}
 		return out
 	}
+	y0 := gsim.TotalYields()
 	before := solo()
+	total := int(gsim.TotalYields() - y0)
+	if len(j.Schedule.Permille) > 0 {
+		for _, pm := range j.Schedule.Permille {
+			j.Schedule.Points = append(j.Schedule.Points, [2]int{pm[0] * total / 1000, pm[1]})
+		}
+	}
+	res.Stats["solo-yields"] = total
 	datas := make([]interface{}, n)
 	bodies := make([]func(), n)
 	got := make([][]string, n)
